@@ -108,6 +108,51 @@ def extracted_marker(lines, line_no):
     return None
 
 
+def vacuity_twin(text, only=None):
+    """adds `false` as the first postcondition of the `only`-th extracted function (one at a time: a callee that promises
+    `false` would make its callers verify vacuously)"""
+    out = []
+    lines = text.splitlines()
+    i = 0
+    n = 0
+    while i < len(lines):
+        ln = lines[i]
+        out.append(ln)
+        if ln.startswith("//@begin-extracted"):
+            # collect header+contract up to the body-open line (first line starting with `{`)
+            j = i + 1
+            blk = []
+            while j < len(lines) and not re.match(r'^\s*\{', lines[j]) and not lines[j].startswith("//@end-extracted"):
+                blk.append(lines[j]); j += 1
+            if j < len(lines) and re.match(r'^\s*\{', lines[j]) and any(re.search(r'\bfn\s+\w+', b) for b in blk):
+                if only is not None and n != only:
+                    out.extend(blk); n += 1; i = j
+                    continue
+                joined = "\n".join(blk)
+                if re.search(r'(?m)^\s*ensures\b', joined):
+                    joined = re.sub(r'(?m)^(\s*)ensures\b', r'\1ensures false, /*VACUITY*/', joined, count=1)
+                else:
+                    joined += "\n        ensures false /*VACUITY*/"
+                out.extend(joined.split("\n"))
+                n += 1
+                i = j
+                continue
+        i += 1
+    return "\n".join(out), n
+
+
+def marked_functions(twin):
+    fns = []
+    lines = twin.splitlines()
+    for i, ln in enumerate(lines):
+        if "/*VACUITY*/" in ln:
+            for L in range(i, -1, -1):
+                m = re.search(r'\bfn\s+(\w+)', lines[L])
+                if m:
+                    fns.append(m.group(1)); break
+    return fns
+
+
 def run_verus_unit(name, prop, tier, keep=False):
     """returns dict(status ok|fail|undecided, obligations, discharged, failures[], info...)"""
     res = dict(unit=name, status="ok", obligations=0, discharged=0, failures=[], undecided=None,
@@ -195,6 +240,31 @@ def run_verus_unit(name, prop, tier, keep=False):
     if bad and res["status"] == "ok":
         res["status"] = "fail"
     res["verified_fns"] = vr.verified
+    # vacuity guard (thorough tier): the twin of the unit in which every extracted function additionally promises `false`
+    # must FAIL in every one of them; a function that proves `false` has a contradictory precondition / stub contract
+    if tier == "thorough" and res["status"] in ("ok", "fail"):
+        from concurrent.futures import ThreadPoolExecutor
+        _, total = vacuity_twin(text)
+
+        def one(k):
+            tw, _n = vacuity_twin(text, only=k)
+            tp = path.replace(".rs", "_vac%d.rs" % k)
+            open(tp, "w").write(tw)
+            fn = (marked_functions(tw) or ["?"])[0]
+            tv = vx.run_verus(tp, rlimit=60, extra=["--verify-function", fn] if False else None)
+            refuted = any(("VACUITY" in d["text"] or "VACUITY" in d.get("rendered", "")) for d in tv.diags)
+            try:
+                os.unlink(tp)
+            except OSError:
+                pass
+            return fn, refuted, tv.undecided
+        with ThreadPoolExecutor(max_workers=12) as ex:
+            outs = list(ex.map(one, range(total)))
+        missing = [f for f, ok, und in outs if not ok]
+        res["vacuity"] = dict(functions=total, refuted=total - len(missing))
+        if missing and res["status"] == "ok":
+            res["status"] = "undecided"
+            res["undecided"] = "vacuity guard: `ensures false` was not refuted for %s (contradictory requires / stub contract, or tool failure)" % missing[:6]
     if not keep and res["status"] == "ok":
         os.unlink(path)
     return res
@@ -409,6 +479,8 @@ def write_evidence(prop, tier, seed, kres, vres, obligations, discharged, violat
     rules = {}
     checker = []
     solver_s = 0.0
+    vac = {}
+    scans = []
     if kres:
         by_backend["kani/cbmc"] = dict(harnesses=kres["obligations"], discharged=kres["discharged"], property_checks=kres["checks"])
         checker += kres["cmds"]
@@ -431,6 +503,10 @@ def write_evidence(prop, tier, seed, kres, vres, obligations, discharged, violat
         for (rel, item, h) in v["spans"]:
             funcs.append(dict(obligation="verus: %s :: %s" % (rel, item), engine="verus", span_sha256_16=h))
         samples.append(dict(kind="verus unit", unit=v["unit"], extracted_functions=v["functions"][:8], status=v["status"]))
+        if v.get("vacuity"):
+            vac[v["unit"]] = v["vacuity"]
+        for sc in v.get("scans", []):
+            scans.append(dict(unit=v["unit"], name=sc["name"], ok=sc["ok"], what=sc["desc"][:200]))
     n_known = len(known_hits)
     ev = dict(
         property_id=prop, tier=tier, seed=seed, level="proof",
@@ -445,6 +521,10 @@ def write_evidence(prop, tier, seed, kres, vres, obligations, discharged, violat
             solver_time_s=round(solver_s, 2),
             rewrite_rules_fired={k: dict(count=n, meaning=vx.RULES.get(k, "see vx.py / unit file")) for k, n in sorted(rules.items())},
             bounded_checks=bounded,
+            vacuity_guard=dict(kani="every kani::cover! behind an assume/oracle must be satisfied (else undecided)",
+                               verus=vac or "thorough tier only: per extracted function, a twin with `ensures false` must be refuted"),
+            syntactic_obligations=scans[:40],
+            syntactic_obligations_total=len(scans),
             known_findings=[k["text"] for f, k in known_hits],
             failed_obligations=[f["key"] for f in violations],
             undecided=undecided,
@@ -481,6 +561,20 @@ def replay(prop, path):
         return 1
     print("obligation discharged on the current tree" if v["status"] == "ok" else "status: %s %s" % (v["status"], v["undecided"]))
     return 0 if v["status"] == "ok" else 2
+
+
+def rebaseline():
+    """writes baseline/obligations.json from the evidence files of a clean run (committed; never written by a check)"""
+    base = {}
+    for p in ALL_PROPS:
+        f = os.path.join(VERIF, "evidence", "%s.json" % p)
+        if os.path.exists(f):
+            ev = json.load(open(f))
+            if ev.get("violations", 0) == 0:
+                base[p] = dict(obligations=ev["coverage"]["obligations"] + len(ev["coverage"].get("known_findings", [])))
+    os.makedirs(os.path.dirname(BASELINE), exist_ok=True)
+    json.dump(base, open(BASELINE, "w"), indent=1, sort_keys=True)
+    print("baseline written for", sorted(base))
 
 
 def list_all():
